@@ -16,9 +16,12 @@
 package main
 
 import (
+	"bytes"
 	"fmt"
 	"go/ast"
+	"go/printer"
 	"go/token"
+	"regexp"
 	"sort"
 	"strings"
 )
@@ -29,6 +32,7 @@ func init() {
 	translators["acqroster"] = acqRoster
 	translators["dokill"] = doKill
 	translators["claimable"] = claimableTable
+	translators["cleanupatomic"] = cleanupAtomic
 }
 
 func ownSel(e ast.Expr) (x string, sel string, ok bool) {
@@ -103,26 +107,47 @@ func guardsId(init ast.Stmt, cond ast.Expr) map[string]bool {
 }
 
 func utsWrites() string {
-	_, f := parseFile("core/task/manager.go")
-	fd := findFunc(f, "Manager", "updateTaskStatus")
-	if fd == nil || fd.Body == nil {
-		die("utswrites: func (m *Manager) updateTaskStatus not found")
+	p := ownPkg("core/task")
+	fd := pkgMethod(p, "Manager", "updateTaskStatus")
+	if fd == nil {
+		die("utswrites: func (m *Manager) updateTaskStatus not found in core/task")
 	}
-	var running *ast.CaseClause
+	isRunning := func(e ast.Expr) bool {
+		_, sel, ok := ownSel(unparen(e))
+		return ok && sel == "TASK_RUNNING"
+	}
+	// the statements executed for TASK_RUNNING: a case of a switch, or the body of `if st == mesos.TASK_RUNNING`
+	var running []ast.Stmt
 	ast.Inspect(fd.Body, func(n ast.Node) bool {
-		cc, ok := n.(*ast.CaseClause)
-		if !ok {
-			return true
-		}
-		for _, e := range cc.List {
-			if _, sel, ok := ownSel(e); ok && sel == "TASK_RUNNING" {
-				running = cc
+		switch v := n.(type) {
+		case *ast.CaseClause:
+			for _, e := range v.List {
+				if isRunning(e) {
+					running = v.Body
+				}
+			}
+		case *ast.IfStmt:
+			if be, ok := unparen(v.Cond).(*ast.BinaryExpr); ok && be.Op == token.EQL && (isRunning(be.X) || isRunning(be.Y)) {
+				running = v.Body.List
 			}
 		}
-		return true
+		return running == nil
 	})
 	if running == nil {
-		die("utswrites: case mesos.TASK_RUNNING not found in updateTaskStatus")
+		die("utswrites: the TASK_RUNNING case of updateTaskStatus was not found")
+	}
+	// the roster entry being updated: locals assigned from a call on the roster
+	defs := localDefs(fd)
+	taskVars := map[string]bool{}
+	for n, d := range defs {
+		if c, ok := unparen(d).(*ast.CallExpr); ok {
+			if _, ok := onRoster(c); ok {
+				taskVars[n] = true
+			}
+		}
+	}
+	if len(taskVars) == 0 {
+		die("utswrites: updateTaskStatus: the roster entry of the status was not found")
 	}
 	code := map[string]int{"status": 1, "agentId": 2, "executorId": 3, "parent": 4, "state": 5}
 	type w struct {
@@ -130,7 +155,7 @@ func utsWrites() string {
 		guarded bool
 	}
 	var ws []w
-	var walk func(stmts []ast.Stmt, guards map[string]bool)
+	var walk func(stmts []ast.Stmt, guards map[string]bool, tv map[string]bool, defs map[string]ast.Expr, depth int)
 	record := func(field string, guards map[string]bool) {
 		c, ok := code[field]
 		if !ok {
@@ -138,39 +163,96 @@ func utsWrites() string {
 		}
 		ws = append(ws, w{c, guards[field]})
 	}
-	walk = func(stmts []ast.Stmt, guards map[string]bool) {
+	guardsOf := func(init ast.Stmt, cond ast.Expr, defs map[string]ast.Expr) map[string]bool {
+		g := guardsId(init, cond)
+		ast.Inspect(cond, func(n ast.Node) bool {
+			be, ok := n.(*ast.BinaryExpr)
+			if !ok || be.Op != token.NEQ {
+				return true
+			}
+			x, y := unparen(be.X), unparen(be.Y)
+			if id, ok := x.(*ast.Ident); ok && id.Name == "nil" {
+				x, y = y, x
+			}
+			if id, ok := y.(*ast.Ident); !ok || id.Name != "nil" {
+				return true
+			}
+			if c, ok := resolve(x, defs).(*ast.CallExpr); ok {
+				if _, sel, ok := ownSel(c.Fun); ok {
+					switch sel {
+					case "GetAgentID":
+						g["agentId"] = true
+					case "GetExecutorID":
+						g["executorId"] = true
+					}
+				}
+			}
+			return true
+		})
+		return g
+	}
+	walk = func(stmts []ast.Stmt, guards map[string]bool, tv map[string]bool, defs map[string]ast.Expr, depth int) {
+		isTask := func(e ast.Expr) bool {
+			id, ok := unparen(e).(*ast.Ident)
+			return ok && tv[id.Name]
+		}
+		call := func(c *ast.CallExpr) {
+			if sel, ok := c.Fun.(*ast.SelectorExpr); ok && isTask(sel.X) {
+				if sel.Sel.Name == "SetParent" {
+					record("parent", guards)
+				}
+				return
+			}
+			// a helper of the package that is handed the roster entry
+			if cal := pkgCallee(p, c.Fun, "Manager"); cal != nil && depth < 2 && cal.Type.Params != nil {
+				ntv := map[string]bool{}
+				i := 0
+				for _, f := range cal.Type.Params.List {
+					for _, n := range f.Names {
+						if i < len(c.Args) && isTask(c.Args[i]) {
+							ntv[n.Name] = true
+						}
+						i++
+					}
+				}
+				if len(ntv) > 0 {
+					walk(cal.Body.List, guards, ntv, localDefs(cal), depth+1)
+				}
+			}
+		}
 		for _, st := range stmts {
 			switch v := st.(type) {
 			case *ast.AssignStmt:
 				for _, l := range v.Lhs {
-					if x, sel, ok := ownSel(l); ok && x == "taskPtr" {
-						record(sel, guards)
+					if sel, ok := l.(*ast.SelectorExpr); ok && isTask(sel.X) {
+						record(sel.Sel.Name, guards)
+					}
+				}
+				for _, r := range v.Rhs {
+					if c, ok := unparen(r).(*ast.CallExpr); ok {
+						call(c)
 					}
 				}
 			case *ast.ExprStmt:
 				if c, ok := v.X.(*ast.CallExpr); ok {
-					if x, sel, ok := ownSel(c.Fun); ok && x == "taskPtr" && sel == "SetParent" {
-						record("parent", guards)
-					}
+					call(c)
 				}
 			case *ast.IfStmt:
 				g := map[string]bool{}
 				for k, b := range guards {
 					g[k] = b
 				}
-				for k := range guardsId(v.Init, v.Cond) {
+				for k := range guardsOf(v.Init, v.Cond, defs) {
 					g[k] = true
 				}
-				walk(v.Body.List, g)
-				if eb, ok := v.Else.(*ast.BlockStmt); ok {
-					walk(eb.List, guards)
-				}
+				walk(v.Body.List, g, tv, defs, depth)
+				walk(elseStmts(v), guards, tv, defs, depth)
 			case *ast.BlockStmt:
-				walk(v.List, guards)
+				walk(v.List, guards, tv, defs, depth)
 			}
 		}
 	}
-	walk(running.Body, map[string]bool{})
+	walk(running, map[string]bool{}, taskVars, defs, 0)
 	hasStatus := false
 	for _, x := range ws {
 		if x.c == 1 {
@@ -190,17 +272,16 @@ func utsWrites() string {
 		items = append(items, fmt.Sprintf("(%d, %s)", x.c, b))
 	}
 	var b strings.Builder
-	b.WriteString("(* regenerated on every run by harness/cmd/translate (utswrites) from core/task/manager.go\n   updateTaskStatus, case TASK_RUNNING: (field written, write guarded by \"the update carries that id\");\n   fields: 1 status, 2 agentId, 3 executorId, 4 parent, 5 state, 9 other *)\n")
+	b.WriteString("(* regenerated on every run by harness/cmd/translate (utswrites) from core/task\n   updateTaskStatus, case TASK_RUNNING: (field written, write guarded by \"the update carries that id\");\n   fields: 1 status, 2 agentId, 3 executorId, 4 parent, 5 state, 9 other *)\n")
 	b.WriteString("From Coq Require Import List NArith.\nImport ListNotations.\nOpen Scope N_scope.\n\n")
 	fmt.Fprintf(&b, "Definition uts_running_writes : list (N * bool) := [%s].\n", strings.Join(items, "; "))
 	return b.String()
 }
 
 func tdOrder() string {
-	_, f := parseFile("core/environment/manager.go")
-	fd := findFunc(f, "Manager", "TeardownEnvironment")
-	if fd == nil || fd.Body == nil {
-		die("tdorder: func (envs *Manager) TeardownEnvironment not found")
+	fd := pkgMethod(ownPkg("core/environment"), "Manager", "TeardownEnvironment")
+	if fd == nil {
+		die("tdorder: func (envs *Manager) TeardownEnvironment not found in core/environment")
 	}
 	type step struct {
 		pos  token.Pos
@@ -243,20 +324,21 @@ func tdOrder() string {
 				}
 				steps = append(steps, step{v.Pos(), c})
 			}
-		case *ast.RangeStmt:
-			if id, ok := v.X.(*ast.Ident); ok && id.Name == "allWeights" {
-				calls := false
-				ast.Inspect(v.Body, func(m ast.Node) bool {
-					if c, ok := m.(*ast.CallExpr); ok {
-						if _, sel, ok := ownSel(c.Fun); ok && (sel == "CallAll" || sel == "TriggerHooks") {
-							calls = true
-						}
+		case *ast.RangeStmt, *ast.ForStmt:
+			// the loop over the hook weights: the (outermost) loop that runs hook calls and hook tasks
+			calls := false
+			ast.Inspect(v, func(m ast.Node) bool {
+				if c, ok := m.(*ast.CallExpr); ok {
+					if _, sel, ok := ownSel(c.Fun); ok && (sel == "CallAll" || sel == "TriggerHooks") {
+						calls = true
 					}
-					return true
-				})
-				if calls {
-					steps = append(steps, step{v.Pos(), 3})
 				}
+				return true
+			})
+			if calls {
+				steps = append(steps, step{v.Pos(), 3})
+				// the other steps are not inside this loop
+				return false
 			}
 		}
 		return true
@@ -325,19 +407,61 @@ func tdOrder() string {
 // roster (`m.roster.append(...)`) must not depend on the success of
 // the deployment: a task that was launched is known to the task manager until it is gone.
 func acqRoster() string {
-	_, f := parseFile("core/task/manager.go")
-	fd := findFunc(f, "Manager", "acquireTasks")
-	if fd == nil || fd.Body == nil {
-		die("acqroster: func (m *Manager) acquireTasks not found")
+	p := ownPkg("core/task")
+	fd := pkgMethod(p, "Manager", "acquireTasks")
+	if fd == nil {
+		die("acqroster: func (m *Manager) acquireTasks not found in core/task")
+	}
+	// the success flag of the deployment: a local that starts as a boolean literal and is set to false somewhere
+	flags := map[string]bool{}
+	for n, d := range localDefs(fd) {
+		if id, ok := unparen(d).(*ast.Ident); ok && (id.Name == "true" || id.Name == "false") {
+			flags[n] = false
+		}
+	}
+	ast.Inspect(fd.Body, func(n ast.Node) bool {
+		if as, ok := n.(*ast.AssignStmt); ok && len(as.Lhs) == len(as.Rhs) {
+			for i, l := range as.Lhs {
+				if id, ok := l.(*ast.Ident); ok {
+					if _, isFlag := flags[id.Name]; isFlag {
+						if v, ok := unparen(as.Rhs[i]).(*ast.Ident); ok && v.Name == "false" {
+							flags[id.Name] = true
+						}
+					}
+				}
+			}
+		}
+		return true
+	})
+	isFlag := func(n string) bool { return flags[n] }
+	mentionsFlag := func(e ast.Node) bool {
+		found := false
+		ast.Inspect(e, func(c ast.Node) bool {
+			if id, ok := c.(*ast.Ident); ok && isFlag(id.Name) {
+				found = true
+			}
+			return !found
+		})
+		return found
 	}
 	found, unconditional, inRetry := 0, 0, 0
-	var loops []*ast.ForStmt // `for attemptCount := ...` loops
+	// the loop over the deployment attempts: a counting loop that sets the success flag
+	var loops []*ast.ForStmt
 	ast.Inspect(fd.Body, func(m ast.Node) bool {
-		if f, ok := m.(*ast.ForStmt); ok {
-			if as, ok := f.Init.(*ast.AssignStmt); ok && len(as.Lhs) == 1 {
-				if id, ok := as.Lhs[0].(*ast.Ident); ok && id.Name == "attemptCount" {
-					loops = append(loops, f)
+		if f, ok := m.(*ast.ForStmt); ok && f.Cond != nil {
+			sets := false
+			ast.Inspect(f.Body, func(c ast.Node) bool {
+				if as, ok := c.(*ast.AssignStmt); ok {
+					for _, l := range as.Lhs {
+						if id, ok := l.(*ast.Ident); ok && isFlag(id.Name) {
+							sets = true
+						}
+					}
 				}
+				return true
+			})
+			if sets {
+				loops = append(loops, f)
 			}
 		}
 		return true
@@ -355,15 +479,8 @@ func acqRoster() string {
 		ast.Inspect(n, func(m ast.Node) bool {
 			switch v := m.(type) {
 			case *ast.IfStmt:
-				cond := false
-				ast.Inspect(v.Cond, func(c ast.Node) bool {
-					if id, ok := c.(*ast.Ident); ok && id.Name == "deploymentSuccess" {
-						cond = true
-					}
-					return true
-				})
-				if cond {
-					if u, ok := v.Cond.(*ast.UnaryExpr); ok && u.Op == token.NOT {
+				if mentionsFlag(v.Cond) {
+					if u, ok := unparen(v.Cond).(*ast.UnaryExpr); ok && u.Op == token.NOT {
 						// `if !deploymentSuccess {...}`: the else branch (if any) is the success branch
 						walk(v.Body, underSuccess)
 						if v.Else != nil {
@@ -378,14 +495,12 @@ func acqRoster() string {
 					return false
 				}
 			case *ast.CallExpr:
-				if sel, ok := v.Fun.(*ast.SelectorExpr); ok && sel.Sel.Name == "append" {
-					if r, ok := sel.X.(*ast.SelectorExpr); ok && r.Sel.Name == "roster" {
-						found++
-						if !underSuccess && inLoop(v.Pos()) {
-							inRetry++
-						} else if !underSuccess {
-							unconditional++
-						}
+				if rosterAdds(p, v) {
+					found++
+					if !underSuccess && inLoop(v.Pos()) {
+						inRetry++
+					} else if !underSuccess {
+						unconditional++
 					}
 				}
 			}
@@ -397,7 +512,7 @@ func acqRoster() string {
 		die("acqroster: no `m.roster.append(...)` found in acquireTasks")
 	}
 	var b strings.Builder
-	b.WriteString("(* regenerated on every run by harness/cmd/translate (acqroster) from core/task/manager.go acquireTasks:\n   the newly launched tasks are written to the roster whether or not the deployment succeeded *)\n")
+	b.WriteString("(* regenerated on every run by harness/cmd/translate (acqroster) from core/task Manager.acquireTasks:\n   the newly launched tasks are written to the roster whether or not the deployment succeeded *)\n")
 	fmt.Fprintf(&b, "Definition acq_roster_unconditional : bool := %v.\n", unconditional > 0)
 	b.WriteString("(* ... and so are, inside the loop over the deployment attempts, the tasks of an attempt that is retried *)\n")
 	fmt.Fprintf(&b, "Definition acq_roster_retry : bool := %v.\n", inRetry > 0)
@@ -408,172 +523,843 @@ func acqRoster() string {
 // for one task fails: the task is put back into the roster (`m.roster.append(task)`), and the loop carries
 // on with the remaining tasks (no return / break / goto in that branch).
 func doKill() string {
-	_, f := parseFile("core/task/manager.go")
-	fd := findFunc(f, "Manager", "doKillTasks")
-	if fd == nil || fd.Body == nil {
-		die("dokill: func (m *Manager) doKillTasks not found")
+	p := ownPkg("core/task")
+	// the kill routine may have any (unexported) name: it is a method of Manager reached from KillTasks or
+	// Cleanup with a loop whose body asks Mesos to kill a task and tests the error
+	var cands []*ast.FuncDecl
+	seen := map[*ast.FuncDecl]bool{}
+	for _, entry := range []string{"KillTasks", "Cleanup"} {
+		e := pkgMethod(p, "Manager", entry)
+		if e == nil {
+			die("dokill: func (m *Manager) %s not found in core/task", entry)
+		}
+		for _, fd := range p.reachable(e, 3) {
+			if recvTypeName(fd) == "Manager" && fd.Body != nil && !seen[fd] {
+				seen[fd] = true
+				cands = append(cands, fd)
+			}
+		}
+	}
+	reach := map[*ast.FuncDecl]bool{}
+	reachesKill := func(fd *ast.FuncDecl) bool {
+		if r, ok := reach[fd]; ok {
+			return r
+		}
+		r := false
+		for _, g := range p.reachable(fd, 3) {
+			if g.Body == nil {
+				continue
+			}
+			ast.Inspect(g.Body, func(n ast.Node) bool {
+				if c, ok := n.(*ast.CallExpr); ok {
+					if x, sel, ok := ownSel(c.Fun); ok && x == "calls" && sel == "Kill" {
+						r = true
+					}
+				}
+				return !r
+			})
+		}
+		reach[fd] = r
+		return r
+	}
+	isKillCall := func(e ast.Expr) bool {
+		c, ok := unparen(e).(*ast.CallExpr)
+		if !ok {
+			return false
+		}
+		cal := pkgCallee(p, c.Fun, "Manager")
+		return cal != nil && reachesKill(cal)
 	}
 	found, putsBack, leaves := 0, false, false
-	ast.Inspect(fd.Body, func(n ast.Node) bool {
-		rs, ok := n.(*ast.RangeStmt)
-		if !ok {
-			return true
-		}
-		ast.Inspect(rs.Body, func(m ast.Node) bool {
-			is, ok := m.(*ast.IfStmt)
-			if !ok {
+	for _, fd := range cands {
+		defs := localDefs(fd)
+		ast.Inspect(fd.Body, func(n ast.Node) bool {
+			var body *ast.BlockStmt
+			switch v := n.(type) {
+			case *ast.RangeStmt:
+				body = v.Body
+			case *ast.ForStmt:
+				body = v.Body
+			default:
 				return true
 			}
-			b, ok := is.Cond.(*ast.BinaryExpr)
-			if !ok || b.Op != token.NEQ {
-				return true
-			}
-			if id, ok := b.Y.(*ast.Ident); !ok || id.Name != "nil" {
-				return true
-			}
-			// the failure branch of a kill call inside the loop
-			found++
-			ast.Inspect(is.Body, func(c ast.Node) bool {
-				switch v := c.(type) {
-				case *ast.ReturnStmt:
-					leaves = true
-				case *ast.BranchStmt:
-					if v.Tok == token.BREAK || v.Tok == token.GOTO {
-						leaves = true
+			ast.Inspect(body, func(m ast.Node) bool {
+				is, ok := m.(*ast.IfStmt)
+				if !ok {
+					return true
+				}
+				b, ok := unparen(is.Cond).(*ast.BinaryExpr)
+				if !ok || (b.Op != token.NEQ && b.Op != token.EQL) {
+					return true
+				}
+				x, y := unparen(b.X), unparen(b.Y)
+				if id, ok := x.(*ast.Ident); ok && id.Name == "nil" {
+					x, y = y, x
+				}
+				if id, ok := y.(*ast.Ident); !ok || id.Name != "nil" {
+					return true
+				}
+				d := defs
+				if as, ok := is.Init.(*ast.AssignStmt); ok && len(as.Lhs) == len(as.Rhs) {
+					d = map[string]ast.Expr{}
+					for k, v := range defs {
+						d[k] = v
 					}
-				case *ast.CallExpr:
-					if sel, ok := v.Fun.(*ast.SelectorExpr); ok && sel.Sel.Name == "append" {
-						if r, ok := sel.X.(*ast.SelectorExpr); ok && r.Sel.Name == "roster" {
-							putsBack = true
+					for i, l := range as.Lhs {
+						if id, ok := l.(*ast.Ident); ok {
+							d[id.Name] = as.Rhs[i]
 						}
 					}
 				}
-				return true
+				if !isKillCall(resolve(x, d)) {
+					return true
+				}
+				// the failure branch of a kill call inside the loop
+				var fail []ast.Stmt
+				if b.Op == token.NEQ {
+					fail = is.Body.List
+				} else {
+					fail = elseStmts(is)
+				}
+				found++
+				for _, st := range fail {
+					ast.Inspect(st, func(c ast.Node) bool {
+						switch v := c.(type) {
+						case *ast.FuncLit:
+							return false
+						case *ast.ReturnStmt:
+							leaves = true
+						case *ast.BranchStmt:
+							if v.Tok == token.BREAK || v.Tok == token.GOTO {
+								leaves = true
+							}
+						case *ast.CallExpr:
+							if rosterAdds(p, v) {
+								putsBack = true
+							}
+						}
+						return true
+					})
+				}
+				return false
 			})
-			return false
+			return true
 		})
-		return true
-	})
+	}
 	if found == 0 {
-		die("dokill: no `if e != nil {...}` inside a range loop of doKillTasks")
+		die("dokill: no loop that tests the error of a kill call was found in the functions KillTasks and Cleanup use")
 	}
 	var b strings.Builder
-	b.WriteString("(* regenerated on every run by harness/cmd/translate (dokill) from core/task/manager.go doKillTasks:\n   a task whose KILL call failed is put back into the roster; the loop then carries on with the other tasks *)\n")
+	b.WriteString("(* regenerated on every run by harness/cmd/translate (dokill) from core/task (the kill routine of KillTasks / Cleanup):\n   a task whose KILL call failed is put back into the roster; the loop then carries on with the other tasks *)\n")
 	fmt.Fprintf(&b, "Definition dokill_puts_back : bool := %v.\n", putsBack)
 	fmt.Fprintf(&b, "Definition dokill_carries_on : bool := %v.\n", !leaves)
 	return b.String()
 }
 
-// claimable: core/task/task.go IsClaimable - the truth table of its return expression over
-// locked x (status == ACTIVE) x state, evaluated symbolically (Go precedence: && binds tighter than ||).
-func claimableTable() string {
-	_, f := parseFile("core/task/task.go")
-	fd := findFunc(f, "Task", "IsClaimable")
-	if fd == nil || fd.Body == nil {
-		die("claimable: func (t *Task) IsClaimable not found")
+// ---------------------------------------------------------------- package-wide look-ups
+
+var ownPkgs = map[string]*pkgInfo{}
+
+func ownPkg(dir string) *pkgInfo {
+	if p, ok := ownPkgs[dir]; ok {
+		return p
 	}
-	states := []string{"STANDBY", "CONFIGURED", "RUNNING", "ERROR", "OTHER"}
-	codes := []int{0, 1, 2, 3, 9}
-	var eval func(e ast.Expr, locked, active bool, state string) bool
-	eval = func(e ast.Expr, locked, active bool, state string) bool {
-		switch v := e.(type) {
-		case *ast.ParenExpr:
-			return eval(v.X, locked, active, state)
-		case *ast.UnaryExpr:
-			if v.Op == token.NOT {
-				return !eval(v.X, locked, active, state)
-			}
-		case *ast.CallExpr:
-			if _, sel, ok := ownSel(v.Fun); ok && (sel == "isLocked" || sel == "IsLocked") {
-				return locked
-			}
-		case *ast.BinaryExpr:
-			switch v.Op {
-			case token.LAND:
-				return eval(v.X, locked, active, state) && eval(v.Y, locked, active, state)
-			case token.LOR:
-				return eval(v.X, locked, active, state) || eval(v.Y, locked, active, state)
-			case token.EQL, token.NEQ:
-				_, lhs, ok1 := ownSel(v.X)
-				res := false
-				known := false
-				if ok1 && lhs == "status" {
-					if id, ok := v.Y.(*ast.Ident); ok {
-						res, known = active == (id.Name == "ACTIVE"), id.Name == "ACTIVE"
-						if !known { // another status constant: true only when not ACTIVE is possible; treat as "not ACTIVE"
-							res, known = !active, true
-						}
-					}
-				}
-				if ok1 && lhs == "state" {
-					if _, rhs, ok := ownSel(v.Y); ok {
-						res, known = state == rhs, true
-					}
-				}
-				if !known {
-					die("claimable: comparison not understood in IsClaimable")
-				}
-				if v.Op == token.NEQ {
-					return !res
-				}
-				return res
+	p := parsePackage(dir)
+	ownPkgs[dir] = p
+	return p
+}
+
+// pkgMethod: the method (recv != "") or function of that name, in whichever file of the package it lives
+func pkgMethod(p *pkgInfo, recv, name string) *ast.FuncDecl {
+	for _, fd := range p.funcs[name] {
+		if recvTypeName(fd) == recv && fd.Body != nil {
+			return fd
+		}
+	}
+	return nil
+}
+
+// pkgCallee: the declaration a call (or a function value) refers to, when it is declared in this package.
+// Methods are found by name; a name declared for several receiver types is resolved by prefer.
+func pkgCallee(p *pkgInfo, fun ast.Expr, prefer string) *ast.FuncDecl {
+	fun = unparen(fun)
+	switch v := fun.(type) {
+	case *ast.Ident:
+		for _, fd := range p.funcs[v.Name] {
+			if fd.Recv == nil && fd.Body != nil {
+				return fd
 			}
 		}
-		die("claimable: expression form not understood in IsClaimable")
+	case *ast.SelectorExpr:
+		// method expression (*T).m / T.m
+		x := unparen(v.X)
+		if st, ok := x.(*ast.StarExpr); ok {
+			x = st.X
+		}
+		if id, ok := x.(*ast.Ident); ok {
+			if fd := pkgMethod(p, id.Name, v.Sel.Name); fd != nil {
+				return fd
+			}
+		}
+		var ms []*ast.FuncDecl
+		for _, fd := range p.funcs[v.Sel.Name] {
+			if fd.Recv != nil && fd.Body != nil {
+				ms = append(ms, fd)
+			}
+		}
+		if len(ms) == 1 {
+			return ms[0]
+		}
+		for _, fd := range ms {
+			if recvTypeName(fd) == prefer {
+				return fd
+			}
+		}
+	}
+	return nil
+}
+
+// pkgConstExprs: package-level constants / variables and the expression they are initialised with
+func pkgConstExprs(p *pkgInfo) map[string]ast.Expr {
+	out := map[string]ast.Expr{}
+	for _, f := range p.files {
+		for _, d := range f.Decls {
+			gd, ok := d.(*ast.GenDecl)
+			if !ok || (gd.Tok != token.CONST && gd.Tok != token.VAR) {
+				continue
+			}
+			for _, sp := range gd.Specs {
+				if vs, ok := sp.(*ast.ValueSpec); ok && len(vs.Names) == len(vs.Values) {
+					for i, n := range vs.Names {
+						out[n.Name] = vs.Values[i]
+					}
+				}
+			}
+		}
+	}
+	return out
+}
+
+func printNode(n ast.Node) string {
+	var b bytes.Buffer
+	_ = printer.Fprint(&b, token.NewFileSet(), n)
+	return strings.Join(strings.Fields(b.String()), " ")
+}
+
+// onRoster: a call `<...>.roster.<method>(...)`
+func onRoster(c *ast.CallExpr) (method string, ok bool) {
+	sel, ok := c.Fun.(*ast.SelectorExpr)
+	if !ok {
+		return "", false
+	}
+	switch r := unparen(sel.X).(type) {
+	case *ast.SelectorExpr:
+		if r.Sel.Name == "roster" {
+			return sel.Sel.Name, true
+		}
+	case *ast.Ident:
+		if r.Name == "roster" {
+			return sel.Sel.Name, true
+		}
+	}
+	return "", false
+}
+
+// rosterAdds: a call on the roster that hands it one task (`m.roster.append(task)`, whatever the method is
+// called): the method is declared for type roster with a single *Task parameter
+func rosterAdds(p *pkgInfo, c *ast.CallExpr) bool {
+	name, ok := onRoster(c)
+	if !ok || len(c.Args) != 1 {
 		return false
 	}
-	// the body as a sequence of guards: `if cond { return e1 }` ... `return e2` (boolean literals allowed)
-	var evalE func(e ast.Expr, locked, active bool, state string) bool
-	evalE = func(e ast.Expr, locked, active bool, state string) bool {
-		if id, ok := e.(*ast.Ident); ok && (id.Name == "true" || id.Name == "false") {
-			return id.Name == "true"
-		}
-		return eval(e, locked, active, state)
+	if fd := pkgMethod(p, "roster", name); fd != nil && fd.Type.Params != nil && len(fd.Type.Params.List) == 1 {
+		return exprString(fd.Type.Params.List[0].Type) == "*Task"
 	}
-	var run func(stmts []ast.Stmt, locked, active bool, state string) (bool, bool)
-	run = func(stmts []ast.Stmt, locked, active bool, state string) (bool, bool) {
-		for _, st := range stmts {
-			switch v := st.(type) {
-			case *ast.ReturnStmt:
-				if len(v.Results) != 1 {
-					die("claimable: return with %d results", len(v.Results))
+	return name == "append"
+}
+
+var blockingNames = map[string]bool{"Lock": true, "RLock": true, "TryLock": true, "TryRLock": true, "Wait": true, "Sleep": true, "Acquire": true}
+
+// blocks: the node acquires a lock, waits, sleeps or uses a channel - directly or in a function of the
+// package it calls (three levels)
+func blocks(p *pkgInfo, n ast.Node, prefer string) bool {
+	found := false
+	var scan func(n ast.Node, depth int)
+	seen := map[*ast.FuncDecl]bool{}
+	scan = func(n ast.Node, depth int) {
+		ast.Inspect(n, func(m ast.Node) bool {
+			switch v := m.(type) {
+			case *ast.CallExpr:
+				if _, sel, ok := ownSel(v.Fun); ok && blockingNames[sel] {
+					found = true
 				}
-				return evalE(v.Results[0], locked, active, state), true
-			case *ast.IfStmt:
-				if v.Init != nil {
-					die("claimable: if with an init statement")
+				if fd := pkgCallee(p, v.Fun, prefer); fd != nil && depth < 3 && !seen[fd] {
+					seen[fd] = true
+					scan(fd.Body, depth+1)
 				}
-				if evalE(v.Cond, locked, active, state) {
-					if r, done := run(v.Body.List, locked, active, state); done {
-						return r, true
-					}
-				} else if eb, ok := v.Else.(*ast.BlockStmt); ok {
-					if r, done := run(eb.List, locked, active, state); done {
-						return r, true
-					}
+			case *ast.SendStmt, *ast.SelectStmt:
+				found = true
+			case *ast.UnaryExpr:
+				if v.Op == token.ARROW {
+					found = true
 				}
-			case *ast.ExprStmt, *ast.DeferStmt: // t.mu.RLock() / defer t.mu.RUnlock()
-			default:
-				die("claimable: statement form not understood in IsClaimable")
+			}
+			return !found
+		})
+	}
+	scan(n, 0)
+	return found
+}
+
+// ---------------------------------------------------------------- boolean predicates over a task
+
+// A small symbolic reading of the boolean methods of Task: the result is a formula over the atoms
+// "status=<WORD>", "state=<NAME>" and opaque atoms (the printed text of anything else, with the receiver
+// written $), whatever the way it is written: && / || chains, guards with early returns, if/else,
+// switch, locals, named constants, helper functions and methods of the package (inlined).
+type tpEnv struct {
+	vars   map[string]tpBind
+	parent *tpEnv
+}
+type tpBind struct {
+	recv bool
+	expr ast.Expr
+	env  *tpEnv
+}
+
+func (e *tpEnv) get(n string) (tpBind, bool) {
+	for ; e != nil; e = e.parent {
+		if b, ok := e.vars[n]; ok {
+			return b, true
+		}
+	}
+	return tpBind{}, false
+}
+
+type taskPred struct {
+	p      *pkgInfo
+	consts map[string]ast.Expr
+	depth  int
+	who    string
+}
+
+func (tp *taskPred) isRecv(e ast.Expr, env *tpEnv) bool {
+	for i := 0; i < 6; i++ {
+		id, ok := unparen(e).(*ast.Ident)
+		if !ok {
+			return false
+		}
+		b, ok := env.get(id.Name)
+		if !ok {
+			return false
+		}
+		if b.recv {
+			return true
+		}
+		e, env = b.expr, b.env
+	}
+	return false
+}
+
+// opaque text of an expression: receiver names replaced by $, locals by what they stand for
+func (tp *taskPred) text(e ast.Expr, env *tpEnv) string {
+	s := printNode(e)
+	for sc := env; sc != nil; sc = sc.parent {
+		for n, b := range sc.vars {
+			re := regexp.MustCompile(`\b` + regexp.QuoteMeta(n) + `\b`)
+			if b.recv {
+				s = re.ReplaceAllString(s, "$$")
+			} else if b.expr != nil && re.MatchString(s) {
+				s = re.ReplaceAllString(s, strings.ReplaceAll("("+tp.text(b.expr, b.env)+")", "$", "$$"))
 			}
 		}
-		return false, false
+	}
+	return s
+}
+
+type tpVal struct {
+	kind string // "field", "status", "state", "other"
+	name string
+}
+
+func (tp *taskPred) val(e ast.Expr, env *tpEnv) tpVal {
+	e = unparen(e)
+	switch v := e.(type) {
+	case *ast.Ident:
+		if b, ok := env.get(v.Name); ok {
+			if b.recv || b.expr == nil {
+				return tpVal{"other", ""}
+			}
+			return tp.val(b.expr, b.env)
+		}
+		switch v.Name {
+		case "ACTIVE", "INACTIVE", "PARTIAL", "UNDEFINED", "UNDEPLOYABLE":
+			return tpVal{"status", v.Name}
+		}
+		if c, ok := tp.consts[v.Name]; ok {
+			return tp.val(c, nil)
+		}
+	case *ast.SelectorExpr:
+		if tp.isRecv(v.X, env) {
+			return tpVal{"field", v.Sel.Name}
+		}
+		if id, ok := v.X.(*ast.Ident); ok && id.Name == "sm" {
+			if _, shadow := env.get("sm"); !shadow {
+				return tpVal{"state", v.Sel.Name}
+			}
+		}
+	case *ast.CallExpr:
+		// a helper that just returns an expression (a getter without its locking statements)
+		if fd := pkgCallee(tp.p, v.Fun, "Task"); fd != nil && tp.depth < 4 {
+			var ret *ast.ReturnStmt
+			n := 0
+			for _, st := range fd.Body.List {
+				switch x := st.(type) {
+				case *ast.ReturnStmt:
+					ret = x
+					n++
+				case *ast.ExprStmt, *ast.DeferStmt:
+				default:
+					n += 2
+				}
+			}
+			if n == 1 && len(ret.Results) == 1 {
+				tp.depth++
+				r := tp.val(ret.Results[0], tp.bindCall(fd, v, env))
+				tp.depth--
+				return r
+			}
+		}
+	}
+	return tpVal{"other", ""}
+}
+
+func (tp *taskPred) bindCall(fd *ast.FuncDecl, call *ast.CallExpr, env *tpEnv) *tpEnv {
+	ne := &tpEnv{vars: map[string]tpBind{}}
+	args := call.Args
+	if fd.Recv != nil && len(fd.Recv.List) == 1 && len(fd.Recv.List[0].Names) == 1 {
+		rn := fd.Recv.List[0].Names[0].Name
+		if sel, ok := unparen(call.Fun).(*ast.SelectorExpr); ok {
+			x := unparen(sel.X)
+			if st, ok := x.(*ast.StarExpr); ok {
+				x = st.X
+			}
+			if id, ok := x.(*ast.Ident); ok && pkgMethod(tp.p, id.Name, sel.Sel.Name) != nil && len(args) > 0 {
+				// method expression (*T).m(recv, args...)
+				ne.vars[rn] = tpBind{recv: tp.isRecv(args[0], env), expr: args[0], env: env}
+				args = args[1:]
+			} else {
+				ne.vars[rn] = tpBind{recv: tp.isRecv(sel.X, env), expr: sel.X, env: env}
+			}
+		}
+	}
+	i := 0
+	if fd.Type.Params != nil {
+		for _, f := range fd.Type.Params.List {
+			for _, n := range f.Names {
+				if i < len(args) {
+					ne.vars[n.Name] = tpBind{recv: tp.isRecv(args[i], env), expr: args[i], env: env}
+				}
+				i++
+			}
+		}
+	}
+	return ne
+}
+
+func (tp *taskPred) atomOf(e ast.Expr, env *tpEnv) *form {
+	return fAtom("u:" + tp.text(e, env))
+}
+
+func (tp *taskPred) boolean(e ast.Expr, env *tpEnv) *form {
+	e = unparen(e)
+	switch v := e.(type) {
+	case *ast.UnaryExpr:
+		if v.Op == token.NOT {
+			return fNot(tp.boolean(v.X, env))
+		}
+	case *ast.BinaryExpr:
+		switch v.Op {
+		case token.LAND:
+			return fAnd(tp.boolean(v.X, env), tp.boolean(v.Y, env))
+		case token.LOR:
+			return fOr(tp.boolean(v.X, env), tp.boolean(v.Y, env))
+		case token.EQL, token.NEQ:
+			l, r := tp.val(v.X, env), tp.val(v.Y, env)
+			if l.kind != "field" {
+				l, r = r, l
+			}
+			var f *form
+			switch {
+			case l.kind == "field" && l.name == "status" && r.kind == "status":
+				f = fAtom("status=" + r.name)
+			case l.kind == "field" && l.name == "state" && r.kind == "state":
+				f = fAtom("state=" + r.name)
+			case l.kind == "field" && (l.name == "status" || l.name == "state"):
+				die("%s: comparison of the task's %s with something that is not one of its constants: %s", tp.who, l.name, printNode(e))
+			default:
+				f = tp.atomOf(&ast.BinaryExpr{X: v.X, Op: token.EQL, Y: v.Y}, env)
+			}
+			if v.Op == token.NEQ {
+				return fNot(f)
+			}
+			return f
+		}
+	case *ast.Ident:
+		switch v.Name {
+		case "true":
+			return fT
+		case "false":
+			return fF
+		}
+		if b, ok := env.get(v.Name); ok && !b.recv && b.expr != nil {
+			return tp.boolean(b.expr, b.env)
+		}
+		if c, ok := tp.consts[v.Name]; ok {
+			return tp.boolean(c, nil)
+		}
+	case *ast.IndexExpr:
+		// table-driven: a package-level map literal from states / status words to booleans, indexed by the field
+		if id, ok := unparen(v.X).(*ast.Ident); ok {
+			if _, local := env.get(id.Name); !local {
+				if cl, ok := tp.consts[id.Name].(*ast.CompositeLit); ok {
+					if _, isMap := cl.Type.(*ast.MapType); isMap {
+						f := fF
+						for _, el := range cl.Elts {
+							kv, ok := el.(*ast.KeyValueExpr)
+							if !ok {
+								return tp.atomOf(e, env)
+							}
+							f = fOr(f, fAnd(tp.boolean(&ast.BinaryExpr{X: v.Index, Op: token.EQL, Y: kv.Key}, env), tp.boolean(kv.Value, nil)))
+						}
+						return f
+					}
+				}
+			}
+		}
+	case *ast.CallExpr:
+		if fd := pkgCallee(tp.p, v.Fun, "Task"); fd != nil && tp.depth < 4 && fd.Type.Results != nil && len(fd.Type.Results.List) == 1 {
+			if id, ok := fd.Type.Results.List[0].Type.(*ast.Ident); ok && id.Name == "bool" && len(fd.Type.Results.List[0].Names) == 0 {
+				tp.depth++
+				f := tp.returned(fd.Body.List, tp.bindCall(fd, v, env))
+				tp.depth--
+				return f
+			}
+		}
+	}
+	return tp.atomOf(e, env)
+}
+
+func (tp *taskPred) bindAssign(lhs []ast.Expr, rhs []ast.Expr, env *tpEnv) {
+	if len(lhs) != len(rhs) {
+		for _, l := range lhs {
+			if id, ok := l.(*ast.Ident); ok {
+				env.vars[id.Name] = tpBind{}
+			}
+		}
+		return
+	}
+	for i, l := range lhs {
+		if id, ok := l.(*ast.Ident); ok && id.Name != "_" {
+			env.vars[id.Name] = tpBind{recv: tp.isRecv(rhs[i], env), expr: rhs[i], env: env.snapshot()}
+		}
+	}
+}
+
+func (e *tpEnv) snapshot() *tpEnv {
+	c := &tpEnv{vars: map[string]tpBind{}, parent: e.parent}
+	for k, v := range e.vars {
+		c.vars[k] = v
+	}
+	return c
+}
+
+// returned: the value a statement list returns (one boolean result)
+func (tp *taskPred) returned(stmts []ast.Stmt, env *tpEnv) *form {
+	env = &tpEnv{vars: map[string]tpBind{}, parent: env}
+	for i, st := range stmts {
+		rest := stmts[i+1:]
+		switch v := st.(type) {
+		case *ast.ReturnStmt:
+			if len(v.Results) != 1 {
+				die("%s: a return with %d results", tp.who, len(v.Results))
+			}
+			return tp.boolean(v.Results[0], env)
+		case *ast.ExprStmt, *ast.DeferStmt, *ast.EmptyStmt: // t.mu.RLock() / defer t.mu.RUnlock()
+		case *ast.AssignStmt:
+			tp.bindAssign(v.Lhs, v.Rhs, env)
+		case *ast.DeclStmt:
+			if gd, ok := v.Decl.(*ast.GenDecl); ok {
+				for _, sp := range gd.Specs {
+					if vs, ok := sp.(*ast.ValueSpec); ok {
+						var lhs []ast.Expr
+						for _, n := range vs.Names {
+							lhs = append(lhs, n)
+						}
+						tp.bindAssign(lhs, vs.Values, env)
+					}
+				}
+			}
+		case *ast.BlockStmt:
+			return tp.returned(concat(v.List, rest), env)
+		case *ast.IfStmt:
+			if as, ok := v.Init.(*ast.AssignStmt); ok {
+				tp.bindAssign(as.Lhs, as.Rhs, env)
+			} else if v.Init != nil {
+				die("%s: an if with an init statement that is not an assignment", tp.who)
+			}
+			c := tp.boolean(v.Cond, env)
+			a := tp.returned(concat(v.Body.List, rest), env)
+			b := tp.returned(concat(elseStmts(v), rest), env)
+			return fIte(c, a, b)
+		case *ast.SwitchStmt:
+			if as, ok := v.Init.(*ast.AssignStmt); ok {
+				tp.bindAssign(as.Lhs, as.Rhs, env)
+			}
+			var deflt []ast.Stmt
+			type arm struct {
+				c    *form
+				body []ast.Stmt
+			}
+			var arms []arm
+			for _, cs := range v.Body.List {
+				cc := cs.(*ast.CaseClause)
+				for _, s := range cc.Body {
+					if b, ok := s.(*ast.BranchStmt); ok && b.Tok == token.FALLTHROUGH {
+						die("%s: fallthrough in a switch", tp.who)
+					}
+				}
+				if cc.List == nil {
+					deflt = cc.Body
+					continue
+				}
+				c := fF
+				for _, e := range cc.List {
+					if v.Tag != nil {
+						c = fOr(c, tp.boolean(&ast.BinaryExpr{X: v.Tag, Op: token.EQL, Y: e}, env))
+					} else {
+						c = fOr(c, tp.boolean(e, env))
+					}
+				}
+				arms = append(arms, arm{c, cc.Body})
+			}
+			f := tp.returned(concat(deflt, rest), env)
+			for j := len(arms) - 1; j >= 0; j-- {
+				f = fIte(arms[j].c, tp.returned(concat(arms[j].body, rest), env), f)
+			}
+			return f
+		default:
+			die("%s: a statement form that is not understood: %s", tp.who, printNode(st))
+		}
+	}
+	die("%s: the function can fall off its end", tp.who)
+	return fF
+}
+
+// taskPredicate: the formula of the boolean method `name` of Task
+func taskPredicate(p *pkgInfo, name string, who string) *form {
+	fd := pkgMethod(p, "Task", name)
+	if fd == nil {
+		die("%s: func (t *Task) %s not found in core/task", who, name)
+	}
+	tp := &taskPred{p: p, consts: pkgConstExprs(p), who: who}
+	env := &tpEnv{vars: map[string]tpBind{}}
+	if len(fd.Recv.List[0].Names) == 1 {
+		env.vars[fd.Recv.List[0].Names[0].Name] = tpBind{recv: true}
+	}
+	return tp.returned(fd.Body.List, env)
+}
+
+// claimable: core/task IsClaimable - its truth table over locked x (status == ACTIVE) x state.  "locked"
+// is whatever IsLocked decides: both methods are read symbolically (helpers inlined) and IsClaimable has
+// to be a function of IsLocked, the status being ACTIVE, and the state.
+func claimableTable() string {
+	p := ownPkg("core/task")
+	claim := taskPredicate(p, "IsClaimable", "claimable")
+	locked := taskPredicate(p, "IsLocked", "claimable")
+	set := map[string]bool{}
+	claim.atoms(set)
+	locked.atoms(set)
+	var opaque []string
+	stateNames := map[string]bool{"STANDBY": true, "CONFIGURED": true, "RUNNING": true, "ERROR": true, "OTHER": true}
+	for a := range set {
+		switch {
+		case strings.HasPrefix(a, "status="):
+		case strings.HasPrefix(a, "state="):
+			stateNames[strings.TrimPrefix(a, "state=")] = true
+		default:
+			opaque = append(opaque, a)
+		}
+	}
+	sort.Strings(opaque)
+	if len(opaque) > 12 {
+		die("claimable: IsLocked / IsClaimable look at too many things: %v", opaque)
+	}
+	code := func(s string) int {
+		switch s {
+		case "STANDBY":
+			return 0
+		case "CONFIGURED":
+			return 1
+		case "RUNNING":
+			return 2
+		case "ERROR":
+			return 3
+		}
+		return 9
+	}
+	type key struct {
+		locked, active bool
+		state          int
+	}
+	table := map[key]bool{}
+	var states []string
+	for s := range stateNames {
+		states = append(states, s)
+	}
+	sort.Strings(states)
+	for mask := 0; mask < 1<<len(opaque); mask++ {
+		for _, status := range []string{"ACTIVE", "INACTIVE", "PARTIAL", "UNDEFINED", "UNDEPLOYABLE", "OTHER"} {
+			for _, state := range states {
+				as := func(a string) bool {
+					if strings.HasPrefix(a, "status=") {
+						return a == "status="+status
+					}
+					if strings.HasPrefix(a, "state=") {
+						return a == "state="+state
+					}
+					for i, o := range opaque {
+						if o == a {
+							return mask&(1<<i) != 0
+						}
+					}
+					return false
+				}
+				k := key{locked.eval(as), status == "ACTIVE", code(state)}
+				r := claim.eval(as)
+				if old, had := table[k]; had && old != r {
+					die("claimable: IsClaimable is not a function of IsLocked, status == ACTIVE and the state (locked=%v status=%s state=%s)", k.locked, status, state)
+				}
+				table[k] = r
+			}
+		}
 	}
 	var items []string
-	for _, locked := range []bool{false, true} {
-		for _, active := range []bool{false, true} {
-			for i, st := range states {
-				res, done := run(fd.Body.List, locked, active, st)
-				if !done {
-					die("claimable: IsClaimable can fall off its end")
+	for _, l := range []bool{false, true} {
+		for _, a := range []bool{false, true} {
+			for _, c := range []int{0, 1, 2, 3, 9} {
+				r, ok := table[key{l, a, c}]
+				if !ok {
+					die("claimable: IsLocked cannot be %v", l)
 				}
-				items = append(items, fmt.Sprintf("((%v, %v), %d, %v)", locked, active, codes[i], res))
+				items = append(items, fmt.Sprintf("((%v, %v), %d, %v)", l, a, c, r))
 			}
 		}
 	}
 	var b strings.Builder
-	b.WriteString("(* regenerated on every run by harness/cmd/translate (claimable) from core/task/task.go IsClaimable:\n   ((locked, status is ACTIVE), state (0 STANDBY 1 CONFIGURED 2 RUNNING 3 ERROR 9 other), claimable) *)\n")
+	b.WriteString("(* regenerated on every run by harness/cmd/translate (claimable) from core/task IsClaimable:\n   ((locked, status is ACTIVE), state (0 STANDBY 1 CONFIGURED 2 RUNNING 3 ERROR 9 other), claimable) *)\n")
 	b.WriteString("From Coq Require Import List NArith.\nImport ListNotations.\nOpen Scope N_scope.\n\n")
 	fmt.Fprintf(&b, "Definition claimable_table : list ((bool * bool) * N * bool) :=\n  [%s].\n", strings.Join(items, ";\n   "))
+	return b.String()
+}
+
+// cleanupatomic: core/task Manager.Cleanup - between the last statement that reads the roster or the lock
+// state of tasks (the list of unlocked tasks is complete there) and the statement that hands the list to the
+// kill routine, nothing acquires a lock, waits, sleeps or uses a channel (directly or in a helper): the list
+// cannot be stale when it is acted upon.
+func cleanupAtomic() string {
+	p := ownPkg("core/task")
+	fd := pkgMethod(p, "Manager", "Cleanup")
+	if fd == nil {
+		die("cleanupatomic: func (m *Manager) Cleanup not found in core/task")
+	}
+	lockReads := map[string]bool{"IsLocked": true, "IsClaimable": true}
+	if il := pkgMethod(p, "Task", "IsLocked"); il != nil {
+		for _, h := range p.reachable(il, 2) {
+			if recvTypeName(h) == "Task" {
+				lockReads[h.Name.Name] = true
+			}
+		}
+	}
+	var defs map[string]ast.Expr
+	reads := func(n ast.Node) bool {
+		found := false
+		ast.Inspect(n, func(m ast.Node) bool {
+			if c, ok := m.(*ast.CallExpr); ok {
+				if _, ok := onRoster(c); ok {
+					found = true
+				}
+				// a method value of the roster: `f := m.roster.filtered; f(...)`
+				if id, ok := unparen(c.Fun).(*ast.Ident); ok && defs != nil {
+					if sel, ok := unparen(resolve(id, defs)).(*ast.SelectorExpr); ok {
+						if _, ok := onRoster(&ast.CallExpr{Fun: sel}); ok {
+							found = true
+						}
+					}
+				}
+				if _, sel, ok := ownSel(c.Fun); ok && lockReads[sel] {
+					found = true
+				}
+			}
+			return !found
+		})
+		return found
+	}
+	// the kill routine: a function of the package that is handed arguments
+	kills := func(n ast.Node) bool {
+		found := false
+		ast.Inspect(n, func(m ast.Node) bool {
+			if c, ok := m.(*ast.CallExpr); ok && len(c.Args) > 0 {
+				if _, isRoster := onRoster(c); !isRoster {
+					if cal := pkgCallee(p, c.Fun, "Manager"); cal != nil && recvTypeName(cal) == "Manager" {
+						found = true
+					}
+				}
+			}
+			return !found
+		})
+		return found
+	}
+	// a Cleanup that only delegates: read the function it delegates to
+	defs = localDefs(fd)
+	for hop := 0; hop < 3 && !reads(fd.Body); hop++ {
+		var next *ast.FuncDecl
+		ast.Inspect(fd.Body, func(m ast.Node) bool {
+			if c, ok := m.(*ast.CallExpr); ok && next == nil {
+				if cal := pkgCallee(p, c.Fun, "Manager"); cal != nil && recvTypeName(cal) == "Manager" && cal != fd {
+					next = cal
+				}
+			}
+			return next == nil
+		})
+		if next == nil {
+			break
+		}
+		fd = next
+		defs = localDefs(fd)
+	}
+	listAt, killAt := -1, -1
+	for i, st := range fd.Body.List {
+		if kills(st) {
+			killAt = i
+		}
+	}
+	for i, st := range fd.Body.List {
+		if i <= killAt && reads(st) {
+			listAt = i
+		}
+	}
+	if listAt < 0 || killAt < 0 {
+		die("cleanupatomic: Cleanup: the list of unlocked tasks or the call that kills it was not found")
+	}
+	blocking := false
+	for i := listAt + 1; i < killAt; i++ {
+		if blocks(p, fd.Body.List[i], "Manager") {
+			blocking = true
+		}
+	}
+	var b strings.Builder
+	b.WriteString("(* regenerated on every run by harness/cmd/translate (cleanupatomic) from core/task Manager.Cleanup:\n   no lock acquisition / channel operation / sleep between computing the list of unlocked tasks and killing it *)\n")
+	fmt.Fprintf(&b, "Definition cleanup_no_block : bool := %v.\n", !blocking)
 	return b.String()
 }
